@@ -73,6 +73,7 @@ impl Property for C04 {
             env: None,
             real: None,
             note: String::new(),
+            decoy_in_cwd: false,
         };
         for _ in 0..rng.small(0, 4) {
             let a = gen_arg(rng, false, false);
